@@ -436,6 +436,7 @@ Ev(e, env, st) ==
                c == IF e.c = NoneV THEN NoneV ELSE r.v[ic]
                s == r.v[1] IN
            IF s.k \notin {"array", "string"} THEN ErrR("stuck:slice", r.st)
+           ELSE IF e.a = NoneV /\ e.b = NoneV /\ e.c = NoneV THEN OkR(s, r.st)    \* s[:] is s itself (tag kept)
            ELSE LET idx == SliceIdx(Len(ItemsOf(s)), a, b, c)
                     sel == [q \in 1..Len(idx) |-> ItemsOf(s)[idx[q] + 1]] IN
                 IF s.k = "string" THEN OkR(StrV(sel), r.st) ELSE OkR(FreshArr(sel, r.st), r.st)
